@@ -90,6 +90,12 @@ func Load(dir, goarch string) (*Prog, error) {
 	prog, _ := ssautil.AllPackages(pkgs, ssa.InstantiateGenerics)
 	prog.Build()
 	p.SSA = prog
+	// canonical comparisons in every function of the module (canon.go)
+	for fn := range ssautil.AllFunctions(prog) {
+		if fn.Pkg != nil && strings.HasPrefix(fn.Pkg.Pkg.Path(), repoModule) && fn.Parent() == nil {
+			canonicalise(fn)
+		}
+	}
 	return p, nil
 }
 
